@@ -379,6 +379,19 @@ fn random_env(rng: &mut Rng) -> Vec<(String, CelValue)> {
 
 fn random_tree(rng: &mut Rng, depth: u32) -> E {
     if depth == 0 || rng.chance(1, 5) {
+        // constant primaries carrying a postfix chain, often under a prefix run: index / field / method bind tighter
+        // than the prefix operator whatever the compiler knows about the primary
+        if rng.chance(1, 6) {
+            let n = |rng: &mut Rng| E::Raw(format!("{}", rng.range(1, 9)));
+            let chain = match rng.below(5) {
+                0 => E::Index(Box::new(E::List(vec![n(rng), n(rng)])), Box::new(E::Raw(format!("{}", rng.below(2))))),
+                1 => E::Field(Box::new(E::Map(vec![(E::Raw("\"f\"".to_string()), n(rng))])), "f".into()),
+                2 => E::Method(Box::new(E::Raw(format!("{:?}", rng.range(1, 9) as f64))), "max".into(), vec![E::Raw(format!("{:?}", rng.range(1, 9) as f64))]),
+                3 => E::Index(Box::new(E::Index(Box::new(E::List(vec![E::List(vec![n(rng), n(rng)])])), Box::new(E::Raw("0".into())))), Box::new(E::Raw("1".into()))),
+                _ => E::Method(Box::new(E::List(vec![n(rng), n(rng), n(rng)])), "size".into(), vec![]),
+            };
+            return if rng.chance(2, 3) { E::Un(*rng.pick(&['-', '!']), 1 + rng.below(2), Box::new(chain)) } else { chain };
+        }
         // literal operands as well: the compiler treats constant neighbours specially (folding, merging), and
         // whatever it does must respect the grouping the grammar gives the text
         if rng.chance(1, 3) {
